@@ -47,6 +47,11 @@ type replacerCompiler struct {
 	dotAssoc map[token.Pos]token.Pos
 
 	patchStart, patchEnd token.Pos
+
+	// keepPos is set when the value compiled is code of the file being
+	// patched rather than of the patch: its positions are reproduced as
+	// they are.
+	keepPos bool
 }
 
 func newReplacerCompiler(fset *token.FileSet, meta *Meta, patchStart, patchEnd token.Pos) *replacerCompiler {
